@@ -382,11 +382,15 @@ def run(ctx):
             ctx.ob("R06.4", "%s->ring_write" % caller, ok4, site=c.where(),
                    what="%s calls ring_write without a dominating ring_write_size(ring) >= len test on the same len" % caller)
             # R06.5
-            ok5, how = _maxmsg_bounded(P, f, c, lslot)
+            ok5, how = _maxmsg_bounded(P, f, c, lslot, fns)
             ctx.ob("R06.5", "%s->ring_write" % caller, ok5, site=c.where(), detail={"bounded_by": how},
                    key="R06.5:%s:len-not-bounded-by-MaxMsg" % caller,
                    what="%s hands ring_write a length that is neither built with capacity MaxMsg nor compared <= MaxMsg" % caller)
-    ctx.require(n_calls >= 3, "only %d calls of ring_write found" % n_calls)
+    # a wrapper that forwards its own length parameter stands for its call sites
+    wrappers = {f.name for f in fns for c in f.calls() if not c.indirect and c.callee == rw.name}
+    n_sites = n_calls + sum(1 for g in fns for c2 in g.calls() if not c2.indirect and c2.callee in wrappers and c2.callee != rw.name) - \
+        sum(1 for w in wrappers if any(not c2.indirect and c2.callee == w for g in fns for c2 in g.calls()))
+    ctx.require(n_sites >= 3, "only %d call sites of ring_write (directly or through a forwarding wrapper) found" % n_sites)
 
 
 def _all_paths_hit(f, start, targets):
@@ -429,9 +433,33 @@ def _maxmsg_fields(P, f):
     return out
 
 
-def _maxmsg_bounded(P, f, call, lslot):
+def _maxmsg_bounded(P, f, call, lslot, fns=(), depth=0):
     if lslot is None:
         return False, None
+    # (c) forwarding wrapper: the length is f's own parameter, never reassigned -> the obligation is every caller's
+    if depth < 3:
+        for idx in range(len(f.params)):
+            try:
+                ps = G.param_slot(f, idx)
+            except AnalysisBroken:
+                continue
+            if ps != lslot:
+                continue
+            if len([s for s in f.insts() if s.op == "store" and G.parse_store(s)[1] == lslot]) != 1:
+                break
+            sites = [(g, c2) for g in fns for c2 in g.calls() if not c2.indirect and c2.callee == f.name]
+            if not sites:
+                break
+            hows = []
+            for g, c2 in sites:
+                v = c2.args[idx] if idx < len(c2.args) else None
+                d2 = g.defs().get(v)
+                s2 = G.parse_load(d2) if d2 is not None and d2.op == "load" else None
+                ok, how = _maxmsg_bounded(P, g, c2, s2, fns, depth + 1)
+                if not ok:
+                    return False, {"forwarded_by": P.dm(f.name).split("(")[0], "unbounded_caller": P.dm(g.name).split("(")[0], "at": c2.where()}
+                hows.append("%s: %s" % (P.dm(g.name).split("(")[0], how))
+            return True, "forwarded parameter; every caller bounds it: " + "; ".join(hows)
     mx = _maxmsg_fields(P, f)
     # (a) len slot is stored from the result of a builder whose capacity argument is MaxMsg
     stores = [s for s in f.insts() if s.op == "store" and G.parse_store(s)[1] == lslot]
